@@ -184,12 +184,12 @@ def c_finder_find(eng, st, fr, f, args, site):
     ns = st.fork()
     try:
         ns.add_fact(vw["len"].sub(i.lin).sub(nlen), eng)
-        ns.key = ns.key + (("find", "some"),)
+        eng.key_outcome(ns, "find", "some")
         tag = ("found", nb, vw["base"], vw["off"], "first" if f["path"].endswith("::find") else "last")
         outs.append((ns, Enum(rt, ((1, (i._replace(tags=frozenset([tag])),)),), "find")))
     except Dead:
         pass
     ns = st.fork()
-    ns.key = ns.key + (("find", "none"),)
+    eng.key_outcome(ns, "find", "none")
     outs.append((ns, Enum(rt, ((0, ()),), "find")))
     return outs
